@@ -20,6 +20,7 @@ from typing import Any
 from detsim import env, gen, rng
 from detsim.observe import (exc_token, observe_globals, observe_meta, observe_sync,
                             observe_track)
+from detsim.runner import Discard
 from detsim.sched import HarnessError, Scheduler
 
 PROP = "C13"
@@ -31,13 +32,16 @@ RULE = ("each evaluation is one parse of the undamaged or the damaged stored cha
         "selection is not None or the file is the damaged one")
 ASSUMPTIONS = [
     "damage is confined to the byte range of one instrument section body and never contains a "
-    "bare brace or a header-shaped line",
+    "bare (unindented) brace or header line; indented ones are body content in this format",
     "the reference is the unrestricted parse of the undamaged file by the real parser",
     "selections and damage are sampled",
 ]
 
+# body lines are rendered with the usual two-blank indentation, so "}" / "{" / "[...]" entries
+# below end up as "  }" etc.: content of the body, not the bare structural lines of the format
 GARBAGE = ["", "garbage", "= = =", "12 34 56", "0 = N 9 0", "0 = S 64 10", "7 = E two words",
-           "0 = B 120000", "0 = TS 4", "0 = A 5", 'Resolution = 1', '3 = E "section x y"', "née 歌"]
+           "0 = B 120000", "0 = TS 4", "0 = A 5", 'Resolution = 1', '3 = E "section x y"', "née 歌",
+           "}", "{", "[ExpertSingle]", "[Song]", "} ", "0 = N 0 0", "3 = N 1 0"]
 
 
 def _gen_damage(f: Any, doc: dict[str, Any], victim: int) -> tuple[str, list[str]]:
@@ -144,7 +148,10 @@ def execute(plan: dict[str, Any]) -> dict[str, Any]:
     headers = plan["headers"]
     victim = plan["victim"]
     violations: list[dict[str, Any]] = []
-    ref = world.parse_text(plan["F"])
+    try:
+        ref = world.parse_text(plan["F"])
+    except Exception as e:  # noqa: BLE001
+        raise Discard("undamaged-file-rejected:" + type(e).__name__) from e
     ref_tracks = {}
     for inst, dd in ref.instrument_tracks.items():
         for diff, tr in dd.items():
